@@ -116,6 +116,20 @@ Next == Len(hist) < MaxOps /\ \E i \in Items : Define(i)
 Case(h) == [items |-> h, forms |-> [k \in 1..Len(h) |-> Text(h[k])], probes |-> Probes]
 Emit == Len(hist') < EmitFrom \/ PrintT(ToJson(Case(hist')))
 EmitState == Len(hist) < EmitFrom \/ PrintT(ToJson(Case(hist)))
+\* directed sessions: every group of items that belong together (a function with its redefinitions, a flavor family, a
+\* class hierarchy with its generic function, a generic function with its daemons ...) defined completely, and every two groups
+\* one after the other
+Groups == {<<"wp1", "wp1b", "wf1", "wf1b", "wf2">>, <<"wfa", "wfam", "wfb", "wi1", "wfm", "wfc">>, <<"wzb", "wzo", "wac">>, <<"wfl", "wfl2">>,
+           <<"wca", "wcb", "wg1", "wg1a", "wg1b">>, <<"wca", "wg2", "wg2p", "wg2b", "wg2a">>, <<"wca", "wg2", "wg2p", "wg2a", "wg2b">>,
+           <<"wv1", "wc1", "wh1", "wm1", "wpk">>}
+InS(x, q) == \E j \in 1..Len(q) : q[j] = x
+Merge(g, h) == g \o SelectSeq(h, LAMBDA x : ~InS(x, g))
+DirectedSessions == Groups \cup {Merge(g, h) : g \in Groups, h \in Groups}
+DInit == hist \in DirectedSessions /\ defined = {hist[j] : j \in 1..Len(hist)}
+DNext == UNCHANGED <<defined, hist>>
+EmitDirected == PrintT(ToJson(Case(hist)))
+\* the order of a directed session respects the dependencies
+DirectedOK == \A q \in DirectedSessions : \A j \in 1..Len(q) : Deps(q[j]) \subseteq {q[k] : k \in 1..(j - 1)}
 View == defined
 \* design: whatever is defined, every probe has a value (the table is total), and definitions only add
 Total == \A p \in {Probes[k] : k \in 1..Len(Probes)} : Expected(defined, p) # ""
